@@ -168,7 +168,7 @@ with open("/verif/seeded/TABLE.md", "w") as f:
     f.write("| seed | change | needs | suite green / demo fails with / passes without | caught by (quick tier) | not caught by | first evaluation missed |\n|---|---|---|---|---|---|---|\n")
     for m in rows:
         c = m["confirmed_by_me"]
-        f.write(f"| {m['id']} | {m['change']} | {m['needs_to_manifest']} | {'yes' if c['suite_green_with_change'] else 'NO'} / {'yes' if c['demo_fails_with_change'] else 'NO'} / {'yes' if c['demo_passes_without_change'] else 'NO'} | {', '.join(m['caught_by']) or '—'} | {', '.join(m['not_caught_by']) or '—'} | {', '.join(m['first_evaluation_before_strengthening']['not_caught_by']) or '—'} |\n")
+        f.write(f"| {m['id']} | {m['change'].replace('|', chr(92)+'|')} | {m['needs_to_manifest']} | {'yes' if c['suite_green_with_change'] else 'NO'} / {'yes' if c['demo_fails_with_change'] else 'NO'} / {'yes' if c['demo_passes_without_change'] else 'NO'} | {', '.join(m['caught_by']) or '—'} | {', '.join(m['not_caught_by']) or '—'} | {', '.join(m['first_evaluation_before_strengthening']['not_caught_by']) or '—'} |\n")
 print(f"{len(rows)} seeds, kept {sum(1 for m in rows if m['kept'])}, caught by at least one check: {sum(1 for m in rows if m['caught_by'])}")
 for m in rows:
     if not m["caught_by"] or not m["kept"]:
